@@ -40,6 +40,9 @@ fn run(ctx: &mut Ctx, extra: &mut BTreeMap<String, String>) {
       }
     }
     if k == 0 { wrappers(c); }
+    // a few large-delta cases per shard (z-order implementation class of delta >= 17)
+    let n_big = if c.thorough { 6 } else { 1 };
+    for _ in 0..n_big { let depth = rng.below(10) as u8; let dd = 17 + rng.below(if c.thorough { 3 } else { 2 }) as u8; let cs = sample_cells(&mut rng, depth, 8); let h = cs[rng.below(cs.len() as u64) as usize]; judge_big(c, nested::get_or_create(depth), depth, h, dd); }
   });
 }
 
@@ -82,6 +85,14 @@ pub fn judge(ctx: &mut Ctx, layer: &'static Layer, depth: u8, h: u64, dd: u8, rn
     match catch(|| nested::internal_edge_part(h, dd, &ord(k))) {
       Err(p) => ctx.violation("internal_edge_part-panics", mk().u("k", k as u64), p),
       Ok(v) => { let got: BTreeSet<u64> = v.iter().copied().collect(); if got != want || got.len() != v.len() { ctx.violation("internal_edge_part-not-the-cells-of-that-side", mk().u("k", k as u64), format!("got {} cells {:?}.. want {} cells", v.len(), &v[..v.len().min(8)], want.len())); } }
+    }
+  }
+  // the appending helpers (used by external_edge) must give the same cells as the boxed helpers
+  for k in 0..4 {
+    ctx.eval();
+    match catch(|| { let mut v = vec![7u64]; nested::append_internal_edge_part(h, dd, &ord(k), &mut v); (v, nested::internal_edge_part(h, dd, &ord(k))) }) {
+      Err(p) => ctx.violation("append_internal_edge_part-panics", mk().u("k", k as u64), p),
+      Ok((v, w)) => { if v.len() != w.len() + 1 || v[0] != 7 || v[1..] != w[..] { let i = (0..w.len().min(v.len().saturating_sub(1))).find(|&i| v[i + 1] != w[i]).unwrap_or(0); ctx.violation("append_internal_edge_part-differs-from-internal_edge_part", mk().u("k", k as u64), format!("lengths {} vs {}; first difference at index {}: {} vs {}", v.len() - 1, w.len(), i, v.get(i + 1).copied().unwrap_or(0), w.get(i).copied().unwrap_or(0))); } }
     }
   }
   // external set expected from the neighbours of the deep border cells
@@ -138,6 +149,43 @@ pub fn judge(ctx: &mut Ctx, layer: &'static Layer, depth: u8, h: u64, dd: u8, rn
   if ctx.samples.len() < 6 && !cls.is_empty() && depth > 3 && h % 3 == 0 { ctx.sample(&mk(), &format!("internal {} cells, external {} cells, class={}", walk.len(), want.len(), cls)); }
 }
 
+/// large delta (17..20): 4 x 2^delta border cells — the z-order class changes at delta 17; lighter oracle (vectors, no per-cell walks)
+pub fn judge_big(ctx: &mut Ctx, layer: &'static Layer, depth: u8, h: u64, dd: u8) {
+  let mk = || Case::new("big").u("depth", depth as u64).u("h", h).u("dd", dd as u64);
+  let deep = nested::get_or_create(depth + dd);
+  let m = (1u32 << dd) - 1; let base = h << (2 * dd);
+  // helpers vs reference interleave
+  for k in 0..4 {
+    ctx.eval();
+    let want: Vec<u64> = (0..=m).map(|t| base | match k { 0 => interleave(t, 0), 1 => interleave(0, t), 2 => interleave(m, t), _ => interleave(t, m) }).collect();
+    match catch(|| { let mut v = Vec::new(); nested::append_internal_edge_part(h, dd, &ord(k), &mut v); (v, nested::internal_edge_part(h, dd, &ord(k))) }) {
+      Err(p) => ctx.violation("append_internal_edge_part-panics", mk().u("k", k as u64), p),
+      Ok((mut v, w)) => {
+        let mut ws = w.to_vec(); ws.sort(); let mut wsr = want.clone(); wsr.sort();
+        if ws != wsr { ctx.violation("internal_edge_part-not-the-cells-of-that-side", mk().u("k", k as u64), format!("{} cells", w.len())); }
+        v.sort(); if v != wsr { let nd = { let mut d = v.clone(); d.dedup(); d.len() }; ctx.violation("append_internal_edge_part-differs-from-internal_edge_part", mk().u("k", k as u64), format!("{} cells, {} distinct, expected {}", v.len(), nd, wsr.len())); }
+      }
+    }
+  }
+  // external edge: expected = neighbours of the deep border cells outside h
+  let mut border: Vec<u64> = Vec::with_capacity(4 * (m as usize + 1));
+  for t in 0..=m { border.push(base | interleave(t, 0)); border.push(base | interleave(0, t)); border.push(base | interleave(m, t)); border.push(base | interleave(t, m)); }
+  border.sort(); border.dedup();
+  let mut want: Vec<u64> = Vec::with_capacity(border.len() * 3);
+  for &c in border.iter() { for g in deep.neighbours(c, false).values_vec() { if g >> (2 * dd) != h { want.push(g); } } }
+  want.sort(); want.dedup();
+  ctx.evals_n(2);
+  match catch(|| layer.external_edge_sorted(h, dd)) {
+    Err(p) => ctx.violation("external_edge_sorted-panics", mk(), p),
+    Ok(v) => if v[..] != want[..] { let nd = { let mut d = v.to_vec(); d.sort(); d.dedup(); d.len() }; ctx.violation("external_edge_sorted-not-the-sorted-set", mk(), format!("{} cells ({} distinct), expected {}", v.len(), nd, want.len())); }
+  }
+  match catch(|| layer.external_edge(h, dd)) {
+    Err(p) => ctx.violation("external_edge-panics", mk(), p),
+    Ok(v) => { let mut g = v.to_vec(); let n0 = g.len(); g.sort(); g.dedup(); if g.len() != n0 { ctx.violation("external_edge-has-duplicates", mk(), format!("{} cells, {} distinct", n0, g.len())); } else if g != want { ctx.violation("external_edge-not-the-adjacent-outside-cells", mk(), format!("got {} want {}", g.len(), want.len())); } }
+  }
+  ctx.hard("big-delta(>=17)", &[depth as u64, h, dd as u64]);
+}
+
 /// the convenience wrappers must accept every depth + delta <= 29
 fn wrappers(ctx: &mut Ctx) {
   for &(d, dd) in [(27u8, 2u8), (28, 1), (20, 9), (0, 29 - 24), (26, 2), (25, 3)].iter() {
@@ -153,6 +201,7 @@ fn replay(ctx: &mut Ctx, c: &Case) {
   match c.mon() {
     "edge" => { let depth = c.gu("depth") as u8; let mut rng = Rng::new(ctx.seed, 1); judge(ctx, nested::get_or_create(depth), depth, c.gu("h"), c.gu("dd") as u8, &mut rng); }
     "wrapper" => wrappers(ctx),
+    "big" => { let depth = c.gu("depth") as u8; judge_big(ctx, nested::get_or_create(depth), depth, c.gu("h"), c.gu("dd") as u8); }
     m => ctx.inconclusive(&format!("unknown replay monitor {}", m)),
   }
 }
